@@ -37,6 +37,7 @@ def check(ctx):
     from . import c06
 
     c06.r06_9(ctx, m)  # a component that was ordered must not look skipped to the caller
+    c06.r06_10(ctx, m)  # a chain must be recognised as one whatever its segments are called (else it is skipped)
     c06.r06_5(ctx, m)  # tags a skipped component carries from the input play no role
     ctx.not_decided.append("that the degree census recognises exactly the non-chain components (a graph-theoretic statement about biccs/dfs, see C15)")
     # mechanisms this property rests on (see shared.py): a change there is reported here as well
